@@ -18,6 +18,11 @@ AnyT = _Any.create()
 is_digits = z3.Function('is_digits', I, B)      # string id -> re.match(r'\d+$')
 int_of_str = z3.Function('int_of_str', I, I)    # string id -> int(s) when defined
 int_ok = z3.Function('int_ok', I, B)            # int(s) does not raise
+_nonempty = z3.Function('dict_nonempty', z3.ArraySort(AnyT, B), B)
+
+
+def dict_nonempty(d, has_row):
+    return _nonempty(has_row)
 
 
 class AnyVals:
@@ -151,4 +156,7 @@ class AnyVals:
         return self.ex.ok(None, st)
 
     def dict_contains(self, d, k, st, fr):
-        return self.ex.ok(SBool(self.dict_has(st, d, k)), st)
+        has = self.dict_has(st, d, k)
+        row = z3.Select(self.dict_arrays(st)[0], d.t)
+        st.assume(z3.Implies(has, _nonempty(row)))      # a present key makes the dictionary non-empty
+        return self.ex.ok(SBool(has), st)
